@@ -18,6 +18,15 @@ fn ra(bits: u128, w: u8) -> u128 {
 fn sample_prefixes<K: Kind>(rng: &mut Rng, exhaustive: bool, per_len: usize) -> Vec<EP> {
     let w = K::W;
     let mut v = Vec::new();
+    if exhaustive && w == 16 {
+        // every representation of the 16-bit tuple type (unary facts exhaustively; pairs are sampled)
+        for len in 0..=16u8 {
+            for a in 0..=65535u32 {
+                v.push(EP::new((a as u128) << 112, len));
+            }
+        }
+        return v;
+    }
     if exhaustive {
         assert!(w == 8);
         for len in 0..=8u8 {
